@@ -97,5 +97,12 @@ HistoryFree == Made => last \in Outcomes(present, zero, ConvsOf(call.kind), call
 (* only the last occurrence matters for the scalar getters *)
 LastOccurrenceOnly ==
     (Made /\ present /\ call.kind \notin ListKinds \cup {"has"}) =>
-        last = Outcome(TRUE, <<LastConv>>, call)
+        last \in Outcomes(TRUE, FALSE, <<LastConv>>, call)      \* (a singleton unless the spelling is lenient/open)
+(* a spelling the conversion rejects is never reported as a value and never stored; a pinned (exact) spelling is
+   always reported (ScalarLex decides which is which: Conv of the Lex configuration) *)
+RejectedNeverStored ==
+    (Made /\ present /\ call.kind \notin ListKinds \cup {"has"} /\ ~LastConv.ok) => (last.res = "invalid" /\ ~last.stored /\ (ncalls = 1 => ~store.set))
+PinnedAlwaysReported ==
+    (Made /\ present /\ call.kind \notin ListKinds \cup BoundedKinds \cup {"has"} /\ LastConv.ok /\ ~IsLenient(LastConv) /\ ~IsOpen(LastConv))
+        => last.res = "value"
 =============================================================================
